@@ -16,7 +16,7 @@ META = {
     "technique": "Lean 4 proof (invariant over all outcome sequences, case analysis by simp/omega) + replay of real read() outcome sequences + L-api oracle with short-write injection",
 }
 
-THEOREMS = ["C14.read_conservation", "C14.read_at_most_length", "C14.step_spec", "C14.read_len_pos", "C14.write_conservation", "C14.write_len_pos", "C14.barrier_runs_between", "C14.barrier_replay_sound", "C14.cleanup_after_all_handlers", "C14.cleanup_is_final", "C14.cleanup_replay_complete", "C14.cleanup_replay_quiet", "C14.cleanup_reachable", "C14.no_hold_on_torn_entry", "C14.F37_as_found", "C14.F37_fixed", "C14.stream_source_consistent", "C14.stream_no_stranded_operation", "C14.stream_idle_source_suspended", "C14.F32_as_found", "C14.F33_as_found", "C14.F35_as_found"]
+THEOREMS = ["C14.read_conservation", "C14.read_at_most_length", "C14.step_spec", "C14.read_len_pos", "C14.write_conservation", "C14.write_len_pos", "C14.write_cut_short_conservation", "C14.F42_as_found", "C14.barrier_runs_between", "C14.barrier_replay_sound", "C14.cleanup_after_all_handlers", "C14.cleanup_is_final", "C14.cleanup_replay_complete", "C14.cleanup_replay_quiet", "C14.cleanup_reachable", "C14.no_hold_on_torn_entry", "C14.F37_as_found", "C14.F37_fixed", "C14.stream_source_consistent", "C14.stream_no_stranded_operation", "C14.stream_idle_source_suspended", "C14.F32_as_found", "C14.F33_as_found", "C14.F35_as_found"]
 
 
 def gen_lines(r, n):
